@@ -76,7 +76,9 @@ deriving DecidableEq, Repr
 /-- program counters: the name says which yield point the thread is parked at -/
 inductive Pc
   | tpGet (blk : Bool)                      -- cb.state.get   (TryPass: CurrentState)
-  | tpRetry (blk : Bool)                    -- cb.retry.load  (retryTimeoutArrived)
+  | tpRetry (blk : Bool)                    -- cb.retry.load  (retryTimeoutArrived: the clock is read first …)
+  | tpLoad (blk : Bool) (now : Nat)         -- cb.x.clock     (… then the deadline is loaded and compared with that reading;
+                                            --  the harness clock yields between the two, when called from the retry check)
   | tpCas (blk : Bool) (ep : Nat) (fr : Bool) -- cb.state.cas (fromOpenToHalfOpen); ep/fr: ghost, epoch and freshness seen by the load
   | rbCas                                   -- cb.state.cas   (exit hook: rollback HalfOpen→Open)
   | ocGet (bad : Bool) (b t : Nat)          -- cb.state.get   (OnRequestComplete: CurrentState), snapshot (b, t)
@@ -125,8 +127,9 @@ def step (cfg : Cfg) (tid : Nat) (s : Sh) (t : Th) : Sh × Th :=
       | .halfOpen =>
           if 0 < cfg.probeNum then finR cfg { s with admits := s.admits ++ [(tid, .quota)] } t true
           else finR cfg s t false
-  | .tpRetry blk =>
-      if s.deadline ≤ s.clock then (s, { t with pc := .tpCas blk s.epoch s.fresh })
+  | .tpRetry blk => (s, { t with pc := .tpLoad blk s.clock })
+  | .tpLoad blk now =>
+      if s.deadline ≤ now then (s, { t with pc := .tpCas blk s.epoch s.fresh })
       else finR cfg s t false
   | .tpCas blk ep fr =>
       if s.st = .opened then
